@@ -470,7 +470,10 @@ pub fn handle(line: &str) -> String {
     TASKS.with(|m| *m.borrow_mut() = TaskMaps::default());
     ca::clear_errors();
     let base = ca::live().0;
+    // `@panic` marks the point where a Rust panic starts; what follows up to `panic` is unwinding
+    trace::mark_panics(true);
     let ok = inner(line);
+    trace::mark_panics(false);
     // all per-script state is gone now: whatever is still live was leaked by the code under test
     let leak = ca::live().0 as i64 - base as i64;
     if !ok {
